@@ -328,7 +328,11 @@ func (group *Group) GetStat(maxsub int) base.StatGroup {
 
 	group.stat.GetFpsFrom(&group.inVideoFpsRecords, time.Now().Unix())
 
-	return group.stat
+	// group.stat.Fps keeps its backing array for the next call, the caller gets its own copy
+	ret := group.stat
+	ret.Fps = make([]base.RecordPerSec, len(group.stat.Fps))
+	copy(ret.Fps, group.stat.Fps)
+	return ret
 }
 
 func (group *Group) KickSession(sessionId string) bool {
